@@ -168,4 +168,37 @@ theorem readRaw_table (w : Writer) (hdr : List Str) (rest : List (List Str)) (hn
     List.filterMap_cons, List.map_cons, List.map_nil, List.append_nil]
   rw [gfmTableL_of_joined _ (fun l hl => (hp l hl).2) (by simp [tableLines]), ← render_lines]
 
+/-! ## the list chunk text: lines joined by `\n`, trailing white space trimmed -/
+
+/-- `strings.TrimRightFunc(·, unicode.IsSpace)` on lines each followed by `\n`: when the last line
+ends in a byte that is not white space only the final newline goes, and splitting the result at
+`\n` gives the lines back — the first line with its indentation -/
+theorem splitLines_trimRight_joinLines (L : List Str) (l : Str) (c : Nat)
+    (hnl : ∀ x ∈ L ++ [l], 10 ∉ x) (hc : l.getLast? = some c) (hws : isWs c = false) :
+    splitLines (trimRight (joinLines (L ++ [l]))) = L ++ [l] := by
+  have e : joinLines (L ++ [l]) = (joinLines L ++ l) ++ [10] := by
+    rw [joinLines_append, joinLines_singleton, List.append_assoc]
+  rw [e, trimRight_append_ws _ _ (by decide), trimRight_eq_self _ (by
+    intro d hd
+    rw [List.getLast?_append, hc] at hd
+    simp only [Option.some_or, Option.some.injEq] at hd
+    subst hd; exact hws)]
+  rw [splitLines_joinLines_append L (fun x hx => hnl x (by simp [hx])) l,
+    splitLines_noNl l (hnl l (by simp))]
+
+theorem decInt_noNl (i : Int) : 10 ∉ decInt i := by
+  unfold Tabula.A1.decInt
+  intro hm
+  split at hm
+  · rcases List.mem_cons.mp hm with h | h
+    · omega
+    · have := dec_digits _ 10 h; simp [isDigit] at this
+  · have := dec_digits _ 10 hm; simp [isDigit] at this
+
+theorem indent2_noNl (lvl : Int) : 10 ∉ indent2 lvl := by
+  unfold indent2
+  intro hm
+  have := List.eq_of_mem_replicate hm
+  omega
+
 end Tabula.MarkdownDoc
